@@ -189,8 +189,9 @@ def run_case(case, ob, tier):
     # (a register WITHOUT reset_value takes Simulation's default_value, which a synthesized block applies per bit:
     #  that is a Simulation parameter, not block behaviour, so it is only compared for copy/optimize)
     if regsA and (case['func'] in ('copy', 'opt') or all(r.reset_value is not None for r in regsA)):
+        sp1 = spec.run(A, 2, v, reg_init='reset', mem_init='sym', default_value=1)
         equiv.bmc_outputs(ob, pair, 2, v, site + ':result-vs-source:bmc-from-reset(default_value=1)', reg_init='reset',
-                          default_value=1, memkeyB=mk, assume=assume, compare_mems=False)
+                          default_value=1, memkeyB=mk, assume=[z3.Not(d) for d in sp1.double_write], compare_mems=False)
     if case['func'] != 'opt':
         v2 = Vars('s_')
         sp2 = spec.run(A, 1, v2, reg_init='sym', mem_init='sym')
